@@ -205,8 +205,10 @@ def run(ctx):
         R.ob('C01.2', ('dispatch poll', 'table insert at request send site'), len(ins) >= 1,
              'the body that writes the request also registers it in the in-flight table', [g.loc(st_)])
         for bb, t in ins:
-            kt = P.operand(g, t['args'][key_param - 1], at=bb)
-            st = P.operand(g, t['args'][sender_param - 1], at=bb)
+            from .common import lifter
+            lift_ = lifter(F, P, reach)
+            kt = lift_(g, P.operand(g, t['args'][key_param - 1], at=bb))
+            st = lift_(g, P.operand(g, t['args'][sender_param - 1], at=bb))
             common = same_root(P, idt, kt)
             ok_key = bool(common) and all(norm_path(px) == norm_path(py) for _, px, py in common) and len(P.root(idt)) == len(common)
             R.ob('C01.2', ('dispatch poll', 'wire id == table key'), ok_key,
@@ -254,12 +256,14 @@ def run(ctx):
     for g in table.bodies(comp):
         for bb, t in g.calls():
             if callee_is(t, 'oneshot::Sender::send'):
-                roots = P.root(P.operand(g, t['args'][0]))
+                roots = P.root(P.operand(g, t['args'][0]), through_params=table.is_helper, callers={b_.id for b_ in table.bodies(comp)})
                 ok = bool(roots) and all(P.is_call(r, *MAP_REMOVALS) and sender_field in P.fpath(p) for r, p in roots)
                 R.ob('C01.4', ('client table completing removal', 'sender is the removed entry\'s'), ok,
                      'the sender completed is the one stored in the entry just removed', [g.loc(t)])
                 rm = lambda x: any(P.is_call(r, *MAP_REMOVALS) for r, _ in P.root(x))
-                gs = guarded_by_variant(F, P, g, bb, rm, ['Some', 'Continue'])
+                from .common import own_sites
+                sites_ = own_sites(F, table, comp, g, bb)
+                gs = bool(sites_) and all(guarded_by_variant(F, P, g2, b2, rm, ['Some', 'Continue']) for g2, b2 in sites_)
                 R.ob('C01.4', ('client table completing removal', 'miss path has no effect'), bool(gs),
                      'completion happens only on the Some edge of the removal; a miss neither sends nor removes anything else', [g.loc(t)])
     # miss path: every mutating call other than the remove itself is on the Some edge
